@@ -27,6 +27,9 @@ func checkC14(c *Ctx, w *World) {
 
 	delayRules(m, c, func(r string) string { return r })
 
+	// ---- C14.converge: the last input (report, list replacement, recovery timer) re-evaluates current before it returns
+	reevalRules(m, c, func(string) string { return "C14.converge" })
+
 	// ---- C14.revalidate: every store to current is justified in its own critical section
 	for _, fn := range []*ssa.Function{m.muc, m.sft, m.delayed} {
 		for _, a := range m.ai.ByFn[fn] {
